@@ -67,6 +67,11 @@ class FrameExec(Exec):
         if n in ("list_app", "dict_set", "dict_del", "dict_discard", "list_cat", "dict_update", "set_add", "list_insert", "list_remove", "dict_setdefault",
                  "py_or"):
             return self.prov(v.arg(0))
+        if n == "DEEPCOPY_MEMO":
+            # sub-objects named by the memo are shared: the copy may alias whatever the original or the memo reaches
+            out = {("~" + r.lstrip("~")) if r not in ("fresh", "immutable") else r for r in self.prov(v.arg(0))}
+            out |= {(r + "[]") for r in self.prov(v.arg(1)) if r not in ("fresh", "immutable")}
+            return out
         if n == "SHALLOWCOPY":
             # a new object whose fields alias the original's
             return {("~" + r.lstrip("~")) if r not in ("fresh", "immutable") else r for r in self.prov(v.arg(0))}
@@ -112,7 +117,11 @@ class FrameExec(Exec):
     def record_store(self, container_value, stored, p, what, node):
         """aliasing: an object owned by a protected region stored into an output region"""
         outs = self.spec.get("outputs", [])
-        prot = self.spec.get("independent_of", [])
+        prot = list(self.spec.get("independent_of", []))
+        # "independent_of_mutable": the object itself may be handed on while it is immutable (numbers, strings, symbols); once a test on the
+        # path says it is a list / array / dict / set, handing it on is aliasing
+        mprot = [m for m in self.spec.get("independent_of_mutable", []) if self.known_mutable(stored, p)]
+        prot += [m + "!" for m in mprot]
         if not prot:
             return
         dest = self.nonlocal_regions(container_value) if container_value is not None else {"return"}
@@ -126,6 +135,17 @@ class FrameExec(Exec):
                 if (r == prr) if exact else (r == prr or r.startswith(prr + ".") or r.startswith(prr + "[")):
                     self.findings.append(("alias", getattr(node, "lineno", None), "%s stores an object of %s into %s" % (what, r, "/".join(sorted(dest))),
                                           list(p.conds)))
+
+    MUTABLE_KINDS = ("list", "ndarray", "np.ndarray", "dict", "set")
+
+    def known_mutable(self, v, p):
+        """the path says the object is a list / array / dict / set (an isinstance test that holds here)"""
+        if isinstance(v, Tup) or not z3.is_expr(v):
+            return False
+        for c in p.conds:
+            if z3.is_app(c) and c.num_args() == 1 and c.decl().name().startswith("isinst_") and c.decl().name()[7:] in self.MUTABLE_KINDS and c.arg(0).eq(v):
+                return True
+        return False
 
     def stored_regions(self, v):
         if isinstance(v, Tup):
